@@ -420,15 +420,43 @@ def run(chk, repo, tier):
     us = mm.classes['Model'].methods.get('update_source')
     if us is None:
         raise AnalysisError('nonmem Model.update_source not found')
+    # set_ignore_character*: an unmodified `IGNORE=I`/`IGNORE=#` record is rewritten to the header's character
     DESTRUCTIVE = {'remove_ignore', 'remove_accept', 'set_filename', 'update_name_of_tables',
-                   'update_initial_individual_estimates'}
+                   'update_initial_individual_estimates', 'set_ignore_character_from_header',
+                   'set_ignore_character'}
     # update_source and the function it hands the $DATA block to (if any)
     from rules.C13 import data_update_host
     from sa import reach as _reach
     hosts = [us] + ([h_] if (h_ := data_update_host(repo)) is not us else [])
     found = 0
-    for us_, cfg in [(h_, CFG(h_.node)) for h_ in hosts]:
+    us_cfg = CFG(us.node)
+
+    def caller_guards(h_):
+        # guards of update_source that dominate every call of the helper h_
+        if h_ is us:
+            return None
+        sites = [n for n in us_cfg.nodes.values() if n.ast is not None and n.kind == 'stmt'
+                 and any(isinstance(x, ast.Call) and dotted(x.func).split('.')[-1] == h_.name for x in ast.walk(n.ast))]
+        if not sites:
+            return None
+        out = None
+        for st in sites:
+            g = []
+            for t in [n for n in us_cfg.nodes.values() if n.kind == 'test']:
+                if not us_cfg.edge_dominates(t.id, 'true', st.id):
+                    continue
+                try:
+                    tx = unparse(_reach.expand_expr(us_cfg, t.id, t.ast))
+                except Exception:
+                    tx = unparse(t.ast)
+                if 'old_' in tx or 'updated_dataset' in tx:
+                    g.append(t)
+            out = g if out is None else [t for t in out if t in g]
+        return out
+
+    for us_, cfg in [(h_, us_cfg if h_ is us else CFG(h_.node)) for h_ in hosts]:
       tests = [n for n in cfg.nodes.values() if n.kind == 'test']
+      outer = caller_guards(us_) or []
       for n in cfg.nodes.values():
           if n.ast is None or n.kind != 'stmt' or isinstance(n.ast, (ast.FunctionDef, ast.ClassDef)):
               continue
@@ -444,7 +472,7 @@ def run(chk, repo, tier):
                 except Exception:
                     return unparse(t.ast)
               guards = [t for t in tests if cfg.edge_dominates(t.id, 'true', n.id)
-                        and ('old_' in gtxt(t) or 'updated_dataset' in gtxt(t))]
+                        and ('old_' in gtxt(t) or 'updated_dataset' in gtxt(t))] + outer
               chk.instance(S6, f'{nm}(...) guarded by {[g.text()[:60] for g in guards]}')
               if not guards:
                   chk.violation(S6, mm.rel, us.qualname, unparse(c)[:100],
